@@ -22,7 +22,8 @@ type Case struct {
 	Latest int    `json:"latest,omitempty"`
 	// Kind of the statement placed at (FailF, FailK): "" = the engine rejects it; "inspect_scale" /
 	// "inspect_fk" = the engine accepts it but atlas cannot inspect the result, so the replay succeeds
-	// and reading the state back fails afterwards.
+	// and reading the state back fails afterwards; "open_tx" = the rejected statement follows a
+	// BEGIN TRANSACTION of the file itself.
 	Kind string `json:"kind,omitempty"`
 }
 
@@ -32,6 +33,9 @@ func failingStmt(c Case) string {
 	switch c.Kind {
 	case "inspect_scale":
 		return "CREATE TABLE prices (id integer NOT NULL PRIMARY KEY, amount decimal(10, 2.5))"
+	case "open_tx":
+		// the file opens a transaction itself and fails inside it.
+		return "BEGIN TRANSACTION;\n" + failing
 	case "inspect_fk":
 		return "CREATE TABLE selfref (id integer NOT NULL PRIMARY KEY, pid integer REFERENCES selfref (nope))"
 	}
@@ -278,7 +282,7 @@ func cases(tier string) []Case {
 			for _, p := range poss {
 				kinds := []string{""}
 				if p.f >= 0 && dev == "empty" {
-					kinds = []string{"", "inspect_scale", "inspect_fk"}
+					kinds = []string{"", "inspect_scale", "inspect_fk", "open_tx"}
 				}
 				for _, kind := range kinds {
 					for _, cmd := range dirCmds {
@@ -324,9 +328,13 @@ func classify(c Case, problems []string) string {
 	return "dev-db-holding-only-a-view-passes-the-emptiness-test"
 }
 
+type drvReplay struct {
+	Driver *DrvCase `json:"driver"`
+}
+
 func Run(r *report.Run) {
 	defer clih.Cleanup()
-	r.Rule = "real CLI with a SQLite file as dev database: commands {migrate diff, migrate validate, migrate lint --latest N, schema apply --to file.sql / file.hcl, schema diff file.sql file.sql, schema inspect file.sql} x dev state {empty, table with rows, view only, FTS virtual table only, R*Tree virtual table only; thorough: table+trigger} x migration directory / schema file shapes (tables, indexes, views and triggers) with, at every position (and nowhere), a statement the engine rejects or one it accepts but atlas cannot inspect (the replay succeeds, reading the state back fails); dev database and directory read before/after by our own connection / file reads; non-trivial = every case; distinct = the case tuple"
+	r.Rule = "real CLI with a SQLite file as dev database: commands {migrate diff, migrate validate, migrate lint --latest N, schema apply --to file.sql / file.hcl, schema diff file.sql file.sql, schema inspect file.sql} x dev state {empty, table with rows, view only, FTS virtual table only, R*Tree virtual table only; thorough: table+trigger} x migration directory / schema file shapes (tables, indexes, views and triggers) with, at every position (and nowhere), a statement the engine rejects or one it accepts but atlas cannot inspect (the replay succeeds, reading the state back fails); dev database and directory read before/after by our own connection / file reads; plus a driver-level slice for MySQL and PostgreSQL: the real drivers opened on a mocked connection, their Inspector / PlanApplier replaced by an in-memory catalogue; every catalogue over two schemas (absent / empty / holding a table) x connection binding x replay effect {table in the first schema, table in the second, new schema}: the real Snapshot must refuse whenever the connection's scope holds a table and the real restore function (real differ) must hand the catalogue back as it was; non-trivial = every case; distinct = the case tuple"
 	r.Assumptions = []string{"`migrate diff` may add one file and rewrite atlas.sum when it succeeds; nothing else may change in the directory"}
 	cs := cases(r.Tier)
 	res := make([][]string, len(cs))
@@ -342,12 +350,34 @@ func Run(r *report.Run) {
 			r.Sample(c)
 		}
 	}
+	// driver-level slice (MySQL, PostgreSQL): see drivers.go.
+	dcs := drvCases()
+	for _, dc := range dcs {
+		p, outcome := EvalDriver(dc)
+		r.Case(fmt.Sprintf("driver %+v", dc), true)
+		per["driver/"+dc.Dialect+"/"+outcome]++
+		if len(p) > 0 {
+			r.Violate("", fmt.Sprintf("driver-level %+v: %s", dc, strings.Join(p, " | ")), drvReplay{Driver: &dc})
+		}
+	}
+	r.Set("driver_level_cases", len(dcs))
 	r.Set("cases_by_command_and_dev_state", per)
 	r.Set("cli_invocations", len(cs))
 }
 
 func Replay(r *report.Run, raw json.RawMessage) {
 	defer clih.Cleanup()
+	var dv struct{ Case drvReplay }
+	if err := json.Unmarshal(raw, &dv); err == nil && dv.Case.Driver != nil {
+		p, _ := EvalDriver(*dv.Case.Driver)
+		fmt.Printf("  driver-level case %+v\n", *dv.Case.Driver)
+		r.Case("a", true)
+		r.Case("b", true)
+		if len(p) > 0 {
+			r.Violate("", strings.Join(p, " | "), dv.Case)
+		}
+		return
+	}
 	var v struct{ Case Case }
 	if err := json.Unmarshal(raw, &v); err != nil {
 		r.Violate("", "bad replay file: "+err.Error(), nil)
